@@ -11,7 +11,10 @@
     * `import a.b.c` binds `a` to the module object `a`; `import a.b.c as n` binds `n` to `a.b.c`;
     * `from X import k [as g]` binds `g` to `getattr(X, k)`; if `X` has no such attribute and `X.k`
       is a module, to that module;
-    * `from X import *` binds every public name of `X` (no `__all__` here);
+    * `from X import *` binds every public name of `X` (no `__all__` here), whatever way `X` got it —
+      star chains included;
+    * the module a dotted name denotes is the FILE Python's path finder picks: a package
+      `X/__init__.py` shadows `X.py`;
     * relative forms first become absolute (`importlib.util.resolve_name`);
     * a later binding of the same name replaces an earlier one;
     * attribute access on a module object: its globals, else an imported submodule of that name
@@ -50,7 +53,15 @@ inductive PyVal where
   | module (m : Str)
   deriving DecidableEq, Repr
 
-def findModule (p : Project) (m : Str) : Option PyModule := p.find? (fun x => x.name = m)
+/-- The file Python's path finder picks for the dotted name `m`: inside one path entry a regular
+package `m/__init__.py` shadows a module file `m.py` of the same name (`importlib.machinery.FileFinder.
+find_spec` tries the directory with an `__init__` before the module suffixes); a plain directory
+without `__init__.py` is not a module of the project at all (a regular module beats a namespace
+portion). A project may therefore list TWO files under one name. -/
+def findModule (p : Project) (m : Str) : Option PyModule :=
+  match p.find? (fun x => x.name = m && x.isPkg) with
+  | some x => some x
+  | none => p.find? (fun x => x.name = m)
 
 /-- `importlib.util.resolve_name("." * level + module, package)` where `package` is the module's
 `__package__`: the module itself for a package, its parent otherwise. -/
@@ -67,7 +78,7 @@ def boundNames : List Decl → List Str
   | .imp (.plain m a) :: r => (a.getD ((splitDot m).head?.getD [])) :: boundNames r
   | .imp (.from_ _ n a) :: r => a.getD n :: boundNames r
   | .imp (.rel _ _ n a) :: r => a.getD n :: boundNames r
-  | .imp (.star _) :: r => boundNames r          -- [interp] star-of-star is not generated
+  | .imp (.star _) :: r => boundNames r          -- syntactic only (not used by `pyScan`)
   | .imp (.relStar _ _) :: r => boundNames r
 
 def isPublic (n : Str) : Bool := !startsWith n ['_']
@@ -83,12 +94,14 @@ def pyScan (p : Project) (g : Str → Str → Option PyVal) (m : PyModule) : Lis
         | some v => some v
         | none => if (findModule p (abs ++ '.' :: n)).isSome then some (.module (abs ++ '.' :: n)) else none
       else pyScan p g m r x
+    -- `from X import *` (no `__all__`): every public global of the fully executed `X` — names `X` itself
+    -- obtained through a star import included (star of star, star chains across package levels)
     let star (abs : Str) : Option PyVal :=
-      match findModule p abs with
-      | some sm =>
-        if isPublic x && (boundNames sm.decls).contains x then g abs x
-        else pyScan p g m r x
-      | none => pyScan p g m r x
+      if isPublic x then
+        match g abs x with
+        | some v => some v
+        | none => pyScan p g m r x
+      else pyScan p g m r x
     match d with
     | .def_ k c ms => if k = x then some (.obj m.name k c ms) else pyScan p g m r x
     | .imp (.plain mod none) =>
